@@ -69,6 +69,10 @@ def bad_calls(M, rng, held):
         ('bad-order', 'swap', (1, 1)) if n >= 2 else None,
         ('bad-order', 'reorder', ({0: 0},)) if n >= 2 else None,
         ('bad-order', 'reorder', ({**{v: v for v in range(n - 1)}, undeclared: n - 1},)) if n >= 2 else None,
+        # the same with the declared variables REVERSED, so that swaps happen before the
+        # undeclared name is met
+        ('bad-order', 'reorder', ({**{v: n - 2 - i for i, v in enumerate(
+            sorted(range(n), key=lambda v: b.vars[vname(v)])[:n - 1])}, undeclared: n - 1},)) if n >= 3 else None,
         ('unknown-variable', 'undeclare', ([undeclared],)),
         ('unknown-variable', 'level_of_var', (undeclared,)),
         ('unknown-variable', 'var_at_level', (n + 2,)),
@@ -144,6 +148,9 @@ def history(ctx, n, steps, reordering):
             M.op('apply', rng.choice(['and', 'or', 'xor']), a, c, None)
         elif k < 0.47:
             M.op('gc', None)
+        elif k < 0.49 and held:
+            # the `roots` attribute (explicit reorderings protect what it names)
+            M.op('set_roots', rng.sample(list(held), min(len(held), rng.randint(1, 2))))
         elif k < 0.52 and n >= 2:
             x = rng.randrange(n - 1)
             if not reordering:
